@@ -2,6 +2,7 @@ import Hv.Driver.Core
 import Hv.Vmdk
 import Hv.VmdkComp
 import Hv.VmdkDesc
+import Hv.VmdkDescEnc
 import Hv.Prim.Inflate
 import Hv.Concat
 namespace Hv.Driver
@@ -160,16 +161,49 @@ def vmdkDeltaChain (st : St) (layers : List String) : Except Err (Option Vmdk.Vm
     | _ => throw .other
   pure top
 
+def extentLine (o : Option VmdkDesc.Extent) : String :=
+  match o with
+  | some e => s!"ok {hx e.access},{e.sectors},{hx e.type},{optS e.filename},{optN e.start},{optS e.uuid},{optS e.dev}"
+  | none => "none"
+
+/-- `N` or `S<hex>` -/
+def argOptS (a : String) : Option (Option (List Char)) :=
+  if a = "N" then some none
+  else if a.startsWith "S" then (hexToString (String.ofList (a.toList.drop 1))).map (fun t => some t.toList)
+  else none
+
+def argOptN (a : String) : Option (Option Nat) :=
+  if a = "N" then some none else a.toNat?.map some
+
 def vmdkDescCmd (st : St) : List String → String
+  -- the direct parser of Hv/VmdkDescEnc (proved equal to the regex model: C10 `extent_line_direct_eq`); `same=` is
+  -- the comparison with the regex model on this line, done here
+  | ["desc.linedirect", h] =>
+    match hexToString h with
+    | some t =>
+      let d := VmdkDesc.parseExtentLine_direct t.toList
+      let raw := VmdkDesc.parseRaw t.toList
+      let sound := match raw with
+        | some F => decide (F.line = t.toList) && F.validb
+        | none => true
+      s!"same={if d = VmdkDesc.parseExtentLine t.toList then 1 else 0} sound={if sound then 1 else 0} {extentLine d}"
+    | none => "err decode"
+  -- an abstract extent: inside `wfExtent`? its printed line; does the regex model parse the line back to it (`rt`)?
+  | ["desc.roundtrip", acc, sec, ty, fn, stt, uu, dv] =>
+    match hexToString acc, sec.toNat?, hexToString ty, argOptS fn, argOptN stt, argOptS uu, argOptS dv with
+    | some a, some n, some t, some f, some s0, some u, some d =>
+      let e : VmdkDesc.ExtentSpec := ⟨a.toList, n, t.toList, f, s0, u, d⟩
+      let line := VmdkDesc.printExtentLine e
+      let got := VmdkDesc.parseExtentLine line
+      s!"wf={if VmdkDesc.wfExtent e then 1 else 0} rt={if got = some e.toExtent then 1 else 0} line={hx line} {extentLine got}"
+    | _, _, _, _, _, _, _ => "err decode"
   | ["desc.parse", h] =>
     match hexToString h with
     | some t => descSummary (VmdkDesc.parse t.toList)
     | none => "err decode"
   | ["desc.line", h] =>
     match hexToString h with
-    | some t => match VmdkDesc.parseExtentLine t.toList with
-      | some e => s!"ok {hx e.access},{e.sectors},{hx e.type},{optS e.filename},{optN e.start},{optS e.uuid},{optS e.dev}"
-      | none => "none"
+    | some t => extentLine (VmdkDesc.parseExtentLine t.toList)
     | none => "err decode"
   | "vmdk.desc.open" :: did :: names =>
     match st.file? did, parseNames st names with
